@@ -65,6 +65,7 @@ pub const IA5_STRING: &str = "IA5String";
 pub const UTF8_STRING: &str = "UTF8String";
 pub const NUMERIC_STRING: &str = "NumericString";
 pub const VISIBLE_STRING: &str = "VisibleString";
+pub const ISO646_STRING: &str = "ISO646String";
 pub const TELETEX_STRING: &str = "TeletexString";
 pub const T61_STRING: &str = "T61String";
 pub const VIDEOTEX_STRING: &str = "VideotexString";
